@@ -1630,7 +1630,12 @@ def report(ctx: Ctx, case: dict, probs: list[str]) -> None:
     oracle = [p for p in probs if p.startswith("oracle")]
     if oracle and case["stream"] in ("hist", "keep"):
         kind = "retained" if ("retained result" in oracle[0] or "client " in oracle[0]) else "history"
-        ctx.violation(oracle[0], {"case": small, "problems": probs}, sig={"kind": kind, "stream": case["stream"]})
+        rp = {"case": small, "problems": probs}
+        if small is not case:
+            # a regression that lives in process-wide state (module / class level caches) may have been shrunk
+            # with that state already disturbed by the earlier runs: the replay falls back to the full sequence
+            rp["unshrunk"] = case
+        ctx.violation(oracle[0], rp, sig={"kind": kind, "stream": case["stream"]})
     elif oracle:
         kind = "mle" if "MLE" in oracle[0] else "choi-ref" if "choi" in oracle[0] else oracle[0].split(":")[1].strip()[:40]
         ctx.violation(oracle[0], {"case": small, "problems": probs}, sig={"kind": kind, "stream": case["stream"]})
@@ -1789,6 +1794,9 @@ def replay(ctx: Ctx, path: str) -> None:
     case = data["replay"]["case"]
     _HIST_BUDGET["n2_model"] = None
     probs = run_case(ctx, case)
+    if not probs and data["replay"].get("unshrunk"):
+        print("replay: the shrunk case shows nothing in a fresh process; running the unshrunk sequence")
+        probs = run_case(ctx, data["replay"]["unshrunk"])
     ctx.case("replay", True, sample=case)
     for p in probs:
         print("replay:", p)
